@@ -16,6 +16,7 @@ import (
 	"path/filepath"
 	"runtime"
 	"strings"
+	"time"
 
 	sqlite3 "github.com/mattn/go-sqlite3"
 	"gorm.io/driver/sqlite"
@@ -476,6 +477,10 @@ func opKind(e *recdrv.Event) string {
 }
 
 func run(in Input) Observed {
+	if os.Getenv("C04_TRACE") != "" {
+		b, _ := json.Marshal(in)
+		fmt.Fprintln(os.Stderr, string(b))
+	}
 	e := getEnv(in.Cfg)
 	_, err := e.fresh.Exec("DELETE FROM markers")
 	lib.Must(err)
@@ -605,8 +610,17 @@ func run(in Input) Observed {
 		}()
 		afterProgram = true
 	}()
-	<-done
-	if recoveredNil {
+	hung := false
+	select {
+	case <-done:
+	case <-time.After(3 * time.Second):
+		// the program neither returned nor finished unwinding (e.g. a Close waiting for a transaction
+		// nobody ends): recorded as a foreign outcome; its goroutine and database are abandoned
+		hung = true
+		obs.Ret = Cls{K: "panic", Code: -9}
+		r.notes = append(r.notes, "the program did not end within 3 s")
+	}
+	if recoveredNil && !hung {
 		if afterProgram {
 			obs.Ret = Cls{K: "panic", Code: -1}
 		} else {
